@@ -349,6 +349,16 @@ def run_verus_job(ctx, name, spec):
     path = os.path.join(vdir, name + ".rs")
     with open(path, "w") as f:
         f.write(text)
+    # mechanical scan of the generated unit for everything that is assumed rather than proved
+    tl = text.split("\n")
+    assumed = []
+    for i, l in enumerate(tl):
+        if "#[verifier::external_body]" in l:
+            nxt = next((x.strip() for x in tl[i + 1:i + 4] if re.search(r"\b(fn|struct)\b", x)), "")
+            assumed.append("%s: external_body %s" % (name, nxt.split("{")[0][:110]))
+        elif "assume_specification" in l or re.search(r"\buninterp spec fn\b", l) or re.search(r"\b(assume|admit)\(", l):
+            assumed.append("%s: %s" % (name, l.strip()[:120]))
+    r["assumed"] = assumed
     cmd = ["verus", path, "--output-json", "--time", "--multiple-errors", "20"] + spec.get("verus_args", [])
     t0 = time.time()
     try:
@@ -580,7 +590,7 @@ def main():
         hashes = extract.body_hashes([(x[0], x[1], x[2] if len(x) > 2 else 0, x[3] if len(x) > 3 else None) for x in fn_specs])
     except extract.LostAnchor as e:
         hashes = {"error": str(e)}
-    assumptions = sorted(set(pinfo.get("assumptions", []) + registry.scan_assumptions(sorted({s.get("module") for s in sel.values() if s.get("module")}))))
+    assumptions = sorted(set(pinfo.get("assumptions", []) + registry.scan_assumptions(sorted({s.get("module") for s in sel.values() if s.get("module")})) + [a for r in results.values() for a in r.get("assumed", [])] + [s_["note"] for s_ in sel.values() if s_.get("note")]))
     edit_summary = {}
     for v, lg in edits.items():
         cnt = {}
@@ -599,7 +609,9 @@ def main():
             trusted_base=pinfo.get("trusted_base", []),
             functions_under_contract=hashes,
             harnesses={h: dict(status=r["status"], wall_s=r.get("wall_s"), solver_s=round(r.get("solver_s") or 0, 2), checks=r.get("n_checks"), covers=r.get("covers"), bounded=(sel.get(h) or vsel.get(h) or {}).get("bounded")) for h, r in results.items()},
-            obligation_list=obl_list,
+            obligation_list=obl_list[:400],
+            obligation_list_truncated=max(0, len(obl_list) - 400),
+            obligations_by_engine={e: sum(1 for o in obl_list if o["engine"] == e and o["status"] == "SUCCESS") for e in sorted({o["engine"] for o in obl_list})},
             samples=samples or [dict(note="no obligations ran")],
             extraction_edits=edit_summary,
             syntactic_scans=static_notes,
